@@ -72,6 +72,14 @@ Theorem C01_alloc_any_valid_slab : forall es (tail : list byte) t l a,
   (enc (es ++ [(t, firstn (N.to_nat l) (skipn 12 tail))]) ++ skipn (12 + N.to_nat l) tail, Ok (voff es, count t es)).
 Proof. exact alloc_any_tail. Qed.
 
+(** ... and after a successful shrink (or same-size resize) the result is again a valid slab of the
+    resized entry list, so every later lookup and listing sees exactly that list (C02_lookup) *)
+Theorem C01_shrink_keeps_valid : forall es (tail : list byte) t r a v b l,
+  Forall wf_entry es -> term tail -> wf_tag t -> split_entry es t r = Some (a, v, b) -> l <= len v ->
+  exists tail', term tail' /\ Forall wf_entry (a ++ (t, resize l v) :: b) /\
+    realloc (enc es ++ tail) t l r = (enc (a ++ (t, resize l v) :: b) ++ tail', Ok (voff a)).
+Proof. exact shrink_keeps_valid. Qed.
+
 (** non-vacuity: a history with a repeated type, a grow and a shrink of the middle entry *)
 Example C01_nonvacuous :
   let t1 := [x01;x01;x01;x01;x01;x01;x01;x01] in let t2 := [x02;x02;x02;x02;x02;x02;x02;x02] in
